@@ -2,8 +2,8 @@ import McpModel.Wire.Sse
 /-!
 # C19 — framing theorems: ndjson and SSE round trips (byte level)
 -/
-namespace Wire
-open Generated.Wire
+namespace Wire.L
+open Wire Generated.Wire
 
 /-! ## splitting at LF -/
 
@@ -224,17 +224,6 @@ theorem stepLine_blank' (evt : Event) (buf : Option Bytes) (out : List Event) :
 
 /-! ## SSE: one event, then a stream -/
 
-/-- A field value the property quantifies over: `TrimSpace` leaves it unchanged (no blank at either
-end — true of every compact JSON text, of every event name and id the SDK uses) and it has no LF. -/
-def Clean (v : Bytes) : Prop := trim v = v ∧ LF ∉ v
-
-structure CleanEvent (e : Event) : Prop where
-  name : Clean e.name
-  id : Clean e.id
-  retry : Clean e.retry
-  data : Clean e.data
-  nonempty : e.isEmpty = false
-
 /-- The lines `writeEvent` writes. -/
 def eventLines (e : Event) : List Bytes :=
   (if e.name = [] then [] else [sse_writeName ++ e.name]) ++
@@ -328,4 +317,4 @@ example : scanEvents (writeEvent { name := [109], id := [49], data := [123, 125]
 /-- … and what the hypothesis excludes really breaks: a payload with a raw LF is not scanned back. -/
 example : scanEvents (writeEvent { data := [97, 10, 98] }) ≠ ([{ data := [97, 10, 98] }], false) := by decide
 
-end Wire
+end Wire.L
